@@ -1,4 +1,5 @@
 pub mod c01;
+pub mod c08;
 pub mod c11;
 pub mod c13;
 pub mod c14;
@@ -10,6 +11,7 @@ use crate::report::Ctx;
 pub fn run(ctx: &mut Ctx) -> bool {
     match ctx.prop.as_str() {
         "C01" => c01::run(ctx),
+        "C08" => c08::run(ctx),
         "C11" => c11::run(ctx),
         "C13" => c13::run(ctx),
         "C14" => c14::run(ctx),
